@@ -1738,6 +1738,56 @@ impl World {
         )
     }
 
+    /// The node as seen through its public API (`info()`, `to_bootstrap()`) compared with its
+    /// internal state (snapshot taken in the same instant): returns one line per disagreement.
+    /// Costs the node a few immediate loop iterations (a node that happens to poll now).
+    pub fn api_view_mismatches(&mut self, node: usize) -> Vec<(String, String)> {
+        if !self.nodes[node].alive {
+            return vec![];
+        }
+        let ci = self.call_info(node);
+        let cb = self.call_to_bootstrap(node);
+        for _ in 0..16 {
+            if self.calls[ci].result.is_some() && self.calls[cb].result.is_some() {
+                break;
+            }
+            if !self.nodes[node].alive {
+                return vec![];
+            }
+            self.grant(node);
+        }
+        let mut out = vec![];
+        let (Some(CallResult::Info(info)), Some(CallResult::Strings(boot))) = (self.calls[ci].result.clone(), self.calls[cb].result.clone()) else {
+            out.push(("api-view/no-answer".to_string(), "info() / to_bootstrap() were not answered within 16 loop iterations".to_string()));
+            return out;
+        };
+        let s = self.snapshot(node);
+        let mut bad = |field: &str, api: String, internal: String| {
+            if api != internal {
+                out.push((format!("api-view/{field}"), format!("the public API reports {field} = {api}, the node's state says {internal}")));
+            }
+        };
+        bad("id", format!("{:?}", info.id()), format!("{:?}", s.core.routing_table.id));
+        bad("public_address", format!("{:?}", info.public_address()), format!("{:?}", s.core.public_address));
+        bad("firewalled", format!("{}", info.firewalled()), format!("{}", s.core.firewalled));
+        bad("server_mode", format!("{}", info.server_mode()), format!("{}", s.core.server_mode));
+        bad("local_port", format!("{}", info.local_addr().port()), format!("{}", self.nodes[node].cfg.port));
+        let size = |t: &dht::verif::TableSnapshot| t.buckets.iter().map(|(_, b)| b.len()).sum::<usize>();
+        bad("routing_table_size", format!("{}", info.routing_table_size()), format!("{}", size(&s.core.routing_table)));
+        bad("signed_peers_routing_table_size", format!("{}", info.singing_peers_routing_table_size()), format!("{}", size(&s.core.signed_peers_routing_table)));
+        // to_bootstrap(): the addresses of the entries of both tables heard from within 15 minutes
+        let fresh = |t: &dht::verif::TableSnapshot| -> Vec<String> {
+            t.buckets.iter().flat_map(|(_, b)| b.iter()).filter(|n| self.now.saturating_sub(n.last_seen) <= 15 * MIN).map(|n| n.address.to_string()).collect()
+        };
+        let mut want: BTreeSet<String> = fresh(&s.core.routing_table).into_iter().collect();
+        want.extend(fresh(&s.core.signed_peers_routing_table));
+        let got: BTreeSet<String> = boot.iter().cloned().collect();
+        if got != want || got.len() != boot.len() {
+            out.push(("api-view/to_bootstrap".to_string(), format!("to_bootstrap() returned {boot:?}, the tables' fresh entries are {want:?}")));
+        }
+        out
+    }
+
     /// Sent datagrams, in order.
     pub fn sent(&self) -> impl Iterator<Item = (&Datagram, &Fate)> {
         self.log.iter().filter_map(|e| match e {
